@@ -380,6 +380,14 @@ func C11(o *core.Options) int {
 		if isSub, code := e1.ReplaySub(o, "cctl"); isSub {
 			return code // a history or schedule recorded by the clock-controlled component harness (h/cctl)
 		}
+		var seam struct {
+			Shape   string   `json:"shape"`
+			Markers []string `json:"markers"`
+		}
+		if err := core.LoadReplay(o.Replay, &seam); err == nil && seam.Shape != "" && len(seam.Markers) > 0 {
+			c11Seam(r) // a case of the invalidation-marker seam: the whole (small) seam enumeration is re-run
+			return r.Finish()
+		}
 		var hc histCase
 		if err := core.LoadReplay(o.Replay, &hc); err != nil {
 			fmt.Println("replay:", err)
